@@ -11,3 +11,5 @@ echo "$OUT" | grep -A3 "sub-check" | head -8
 git -C /repo checkout -- . 
 rm -f /verif/replays/${ID}-*.json
 echo "exit=$RC"
+# rebuild the harness against the restored tree so a later direct ./target/release/vengine is not stale
+( cd /verif/engine && CARGO_TARGET_DIR=/verif/target RUSTFLAGS="--cfg pytest_language_server_verif" cargo build --release --offline >/dev/null 2>&1 )
